@@ -14,7 +14,7 @@ BUDGETS = [("0", "0"), ("1", "-"), ("-", "1"), ("2", "2"), ("3", "1"), ("1", "3"
 def run(ctx, proofs):
     r = propeng.run(ctx, proofs, BUDGETS, check_vals=True, check_degs=True,
                     n_quick=350, n_thorough=5000, props=("C06", "C07", "C20"))
-    propeng.verdict(ctx, proofs, r, kinds=("value", "degree", None),
+    propeng.verdict(ctx, proofs, r, kinds=("value", "degree", "finding", None),
                     known_classes=("ctl-merge",),
                     extra_cov={"budgets": BUDGETS,
                                "open_statements": ["the universal theorem C20_mirror_validated_at_every_budget covers value claims; the "
